@@ -349,6 +349,27 @@ def loop_breaks(fn):
     return out
 
 
+def call_parts(e):
+    """("callee", [top-level argument strings]) of a rendered call expression `callee(a, b, ..)`, else None"""
+    i = e.find("(")
+    if i < 0 or not e.endswith(")"):
+        return None
+    depth, args, cur = 0, [], ""
+    for ch in e[i + 1:-1]:
+        if ch in "([{":
+            depth += 1
+        elif ch in ")]}":
+            depth -= 1
+        if ch == "," and depth == 0:
+            args.append(cur.strip())
+            cur = ""
+        else:
+            cur += ch
+    if cur.strip():
+        args.append(cur.strip())
+    return e[:i], args
+
+
 def char_predicate_set(c):
     """for a closure of the shape `|ch| matches!(ch, 'a' | 'b' | ..)` (one switch on its char argument, constant
     true / false results): the set of characters it accepts; None for any other shape"""
